@@ -10,6 +10,12 @@
 (* sample counter into the sync channel, so the tokens can be read off the  *)
 (* real files.)                                                             *)
 (*                                                                         *)
+(* ns is the number of samples the run PROCESSES: the whole recording, or   *)
+(* its first `nsamples` (init_params), or the range [offset, offset + ns)    *)
+(* of the NP2.1 path; tokens are positions inside that range (the harness    *)
+(* re-bases what it reads off the sync column and judges the files against   *)
+(* that range of the original).                                              *)
+(*                                                                         *)
 (* Implementation layer: Construct / YieldFirst / YieldNext / Stop of       *)
 (* Windows, each window followed by the kept-range computation of           *)
 (* `_ind2save` (taper margins, first/last window) for both streams.         *)
